@@ -4,6 +4,9 @@ import IPT.Thm.C08
   End-to-end statements about `adjForExtLat` (guard, dispatch, writer, interval pass) for EVERY
   scalar type; the formulas are the ones in the property text, written in the scalar's own
   arithmetic (`24 - (M - S)` etc.), so over ℝ they are the stated quantities exactly.
+  Scope: the formula theorems assume no Fajr/Isha interval (`NoIntervals`: the six angle-based
+  named methods; for UmmAlQurra/FixedIsha the interval pass then overwrites Isha,
+  `interval_definition_kept`), except the minutes-from-Maghrib ones, which need the intervals set.
 -/
 namespace IPT.C10
 open IPT IPT.ExtLatLemmas
@@ -26,7 +29,10 @@ theorem adjForInt_noIntervals (p : Params α) (h : PHours α) (hn : NoIntervals 
   simp [hn.1, hn.2]
 
 /-- **nearest latitude, all prayers**: Shurooq, Asr, Maghrib (and Fajr/Isha where they exist
-    there) are exactly the conventional hours at the substitute latitude, all six flagged extreme -/
+    there) are exactly the conventional hours at the substitute latitude, all six flagged extreme.
+    Dhuhr is NOT recomputed: the code keeps the site's own Dhuhr and flags it (the two differ only
+    through the parallax term, which depends on latitude; no theorem bounds that difference - the
+    falsifier compares within the property's 3 s). -/
 theorem nearLat_all (p : Params α) (hours : Hours α) (env : Env α) (l : α) (d : α)
     (hp : p.policy = .NearestLatitudeAllPrayersAlways l) (hn : NoIntervals p) (hd : hours.dhuhr = some d) :
     ∃ r, adjForExtLat p hours env = .ok r ∧
@@ -76,6 +82,46 @@ theorem seventh_invalid_fajr (p : Params α) (hours : Hours α) (env : Env α) (
     Hours.toPH, hf, hs, hm, hi, PHours.hasInv, Policy.portionKind, portionOf, Policy.isSevHalfAlways, Policy.isHalfInvalid,
     adjForInt_noIntervals _ _ hn, PH.ext, PH.conv]
 
+/-- the mirror case: Isha is missing and Fajr is not - under both only-if-invalid seventh policies
+    (night: p = (24 − (M − S))/7, day: p = (M − S)/7) the missing one is written, flagged; the other kept -/
+theorem seventh_invalid_isha (p : Params α) (hours : Hours α) (env : Env α) (f s m : α) (hn : NoIntervals p)
+    (hf : hours.fajr = some f) (hs : hours.shur = some s) (hm : hours.magh = some m) (hi : hours.isha = none) :
+    (p.policy = .SeventhOfNightFajrIshaInvalid →
+      adjForExtLat p hours env = .ok { hours.toPH with isha := some ⟨m + (Gen.HRS_PER_DAY - (m - s)) / 7.0, true⟩ }) ∧
+    (p.policy = .SeventhOfDayFajrIshaInvalid →
+      adjForExtLat p hours env = .ok { hours.toPH with isha := some ⟨m + (m - s) / 7.0, true⟩ }) := by
+  constructor <;> intro hp <;>
+    simp [adjForExtLat, applyPolicy, canAdj, hp, Policy.isNone, Gen.isAlways, Gen.dispatch, adjSevHalf,
+      Hours.toPH, hf, hs, hm, hi, PHours.hasInv, Policy.portionKind, portionOf, Policy.isSevHalfAlways, Policy.isHalfInvalid,
+      adjForInt_noIntervals _ _ hn, PH.ext, PH.conv]
+
+/-- seventh of the DAY, only if invalid, Fajr missing (the night variant is `seventh_invalid_fajr`) -/
+theorem seventh_day_invalid_fajr (p : Params α) (hours : Hours α) (env : Env α) (s m i : α) (hn : NoIntervals p)
+    (hp : p.policy = .SeventhOfDayFajrIshaInvalid)
+    (hf : hours.fajr = none) (hs : hours.shur = some s) (hm : hours.magh = some m) (hi : hours.isha = some i) :
+    adjForExtLat p hours env = .ok { hours.toPH with fajr := some ⟨s - (m - s) / 7.0, true⟩ } := by
+  simp [adjForExtLat, applyPolicy, canAdj, hp, Policy.isNone, Gen.isAlways, Gen.dispatch, adjSevHalf,
+    Hours.toPH, hf, hs, hm, hi, PHours.hasInv, Policy.portionKind, portionOf, Policy.isSevHalfAlways, Policy.isHalfInvalid,
+    adjForInt_noIntervals _ _ hn, PH.ext, PH.conv]
+
+/-- **nearest latitude, Fajr/Isha only if invalid**: a missing Fajr (Isha) is taken from the
+    substitute latitude and flagged, an existing one is kept as it is; nothing else changes -/
+theorem nearLat_fajrIsha_invalid (p : Params α) (hours : Hours α) (env : Env α) (l vf vi : α)
+    (hp : p.policy = .NearestLatitudeFajrIshaInvalid l) (hn : NoIntervals p)
+    (hinv : hours.toPH.hasInv = true)
+    (hf : (env.nearLatHours l).fajr = some vf) (hi : (env.nearLatHours l).isha = some vi) :
+    adjForExtLat p hours env = .ok { hours.toPH with
+      fajr := if hours.fajr.isNone then some ⟨vf, true⟩ else hours.toPH.fajr,
+      isha := if hours.isha.isNone then some ⟨vi, true⟩ else hours.toPH.isha } := by
+  have hcan : canAdj hours.toPH p.policy = true := by simp [canAdj, hp, Policy.isNone, hinv]
+  unfold adjForExtLat applyPolicy
+  rw [if_pos hcan]
+  simp only [hp, Gen.dispatch]
+  unfold adjNearLat
+  cases h1 : hours.fajr <;> cases h2 : hours.isha <;>
+    simp [hp, Policy.isNearLatFIInvalid, Policy.isNearLatAll, hf, hi, Hours.toPH, h1, h2,
+      adjForInt_noIntervals _ _ hn, PH.ext, PH.conv]
+
 /-- **angle-based**, on a day where some time is missing: Fajr = Shurooq − (FajrAngle/60)·night,
     Isha = Maghrib + (IshaAngle/60)·night, night = 24 − Maghrib + Shurooq; both flagged extreme -/
 theorem angle_based (p : Params α) (hours : Hours α) (env : Env α) (s m : α) (hn : NoIntervals p)
@@ -111,9 +157,9 @@ theorem minutes_invalid (p : Params α) (hours : Hours α) (env : Env α) (s m :
   simp [adjForExtLat, applyPolicy, canAdj, hp, Policy.isNone, PHours.hasInv, Gen.dispatch, adjMinInv, Hours.toPH,
     hf, hi, hs, hm, adjForInt, Gen.intExcluded, PH.conv]
 
-/-- **a Fajr/Isha that the method defines by an interval keeps that definition** under every
-    policy the interval pass does not skip: Isha = (policy's Maghrib) + interval — Thm C12
-    `isha_fajr_interval`; and **every replaced value is flagged extreme** — Thm C08
+/-- **an Isha that the method defines by an interval keeps that definition** under every
+    policy the interval pass does not skip: Isha = (policy's Maghrib) + interval (the Fajr half,
+    Fajr = (policy's Shurooq) − interval, and both together are Thm C12 `isha_fajr_interval`); and **every replaced value is flagged extreme** — Thm C08
     `unflagged_is_conventional`.  Re-exported here for the record. -/
 theorem interval_definition_kept (p : Params α) (hours : Hours α) (env : Env α) (h1 r : PHours α)
     (hE : ¬ Gen.intExcluded p.policy = true) (hz : nonZero p.intIsha = true)
